@@ -151,10 +151,26 @@ def build_dag(case, maxc=1, is_async=False, mk=None, attrs=None):
                     args.append(src)
                 elif viol["via"] == "kw":
                     kw["extra"] = src
-                else:
+                elif viol["via"] == "flag":
                     kw["twz_active"] = src
             v[i] = fs[i](*args, **kw)
+            if viol is not None and viol["dst"] == i and viol["via"] in ("subarg", "subflag"):
+                # the value crosses the boundary of a nested DAG: as its argument, or as the flag of the call
+                if viol["via"] == "subarg":
+                    vsub(v[viol["src"]])
+                else:
+                    vsub(7, twz_active=v[viol["src"]])
         return tuple(v[i] for i in range(n))
+
+    vsub = None
+    if viol is not None and viol["via"] in ("subarg", "subflag"):
+        vs = (mk or tz.mknode)("vs", lambda *a, **k: ("vs",) + tuple(a))
+
+        def vsubdesc(x):
+            return vs(x)
+        vsubdesc.__qualname__ = "vsub"
+        vsubdesc.__name__ = "vsub"
+        vsub = tawazi.dag(vsubdesc)
 
     desc.__qualname__ = "gdesc"
     desc.__name__ = "gdesc"
@@ -312,7 +328,9 @@ def gen_violation(rng, case):
     c["queries"] = []
     how = rng.choice(["node", "node", "node", "param"])
     dst = rng.randrange(1, n)
-    via = rng.choice(["arg", "kw", "flag"])
+    via = rng.choice(["arg", "kw", "flag", "subarg", "subflag"])
+    if how == "param" and via in ("subarg", "subflag"):
+        how = "node"
     if how == "param":
         c["viol"] = dict(how="param", src=None, dst=dst, via=via)
     else:
